@@ -5106,7 +5106,8 @@ impl<K: Introspect + Eq + Hash, V: Introspect, S: ::std::hash::BuildHasher> Intr
         }
     }
     fn introspect_len(&self) -> usize {
-        self.len()
+        // Keys and values are separate children, see introspect_child
+        self.len() * 2
     }
 }
 
@@ -5130,7 +5131,8 @@ impl<K: Introspect + Eq + Hash, V: Introspect, S: ::std::hash::BuildHasher> Intr
         }
     }
     default fn introspect_len(&self) -> usize {
-        self.len()
+        // Keys and values are separate children, see introspect_child
+        self.len() * 2
     }
 }
 
@@ -5214,7 +5216,8 @@ impl<K: Introspect, V: Introspect> Introspect for BTreeMap<K, V> {
         }
     }
     fn introspect_len(&self) -> usize {
-        self.len()
+        // Keys and values are separate children, see introspect_child
+        self.len() * 2
     }
 }
 
@@ -5425,7 +5428,8 @@ impl<K: Introspect + Eq + Hash, V: Introspect, S: ::std::hash::BuildHasher> Intr
     }
 
     fn introspect_len(&self) -> usize {
-        self.len()
+        // Keys and values are separate children, see introspect_child
+        self.len() * 2
     }
 }
 
@@ -5454,7 +5458,8 @@ impl<K: Introspect + Eq + Hash, V: Introspect, S: ::std::hash::BuildHasher> Intr
     }
 
     default fn introspect_len(&self) -> usize {
-        self.len()
+        // Keys and values are separate children, see introspect_child
+        self.len() * 2
     }
 }
 
